@@ -179,6 +179,20 @@ def _hook(event: str, args) -> None:  # noqa: C901
                     while not _others_done(sched["n"]) and time.monotonic() < t_end:
                         time.sleep(0.002)
                     _log(f"{_IDX} {os.getpid()} {_NEV} RELEASE {rel}")
+        elif kind == "stall_at":
+            # child 0 runs ahead alone and stalls at its first event of class `at` - inside the locked region, with the cache
+            # file about to be rewritten (hook before 'open:w') or just completed (hook before the unlock): a slow disk, a
+            # suspended process.  The other children begin their first use once the stall has begun (see main), so all of
+            # it falls into the stall.  2.5 s is well below filelock's 10 s: they wait for the lock and go on
+            at = sched["at"]
+            token = os.path.join(CFG["barrier"], "stall.token")
+            if _IDX == 0:
+                if tag.startswith(at[0]) and rel == at[1] and not CFG.get("_stall_done"):
+                    CFG["_stall_done"] = True
+                    with open(token, "w"):
+                        pass
+                    _log(f"{_IDX} {os.getpid()} {_NEV} STALL{'-IN-LOCK' if in_cs else ''} {rel}")
+                    time.sleep(sched.get("ms", 2500) / 1000.0)
         elif kind == "rendezvous":
             # every child waits at its first event of class `at` (event, path) until all N have
             # arrived, finished, or `wait_ms` passed since its own arrival; then they go on together
@@ -707,6 +721,12 @@ def main() -> int:
     mode = CFG["mode"]
     if not early:
         barrier_wait()
+    if sched.get("kind") == "stall_at" and _IDX != 0:
+        # the others begin their first use (starting with the look whether a cache file exists) once child 0 is stalling
+        t_end = time.monotonic() + 12
+        while not os.path.exists(os.path.join(CFG["barrier"], "stall.token")) and not os.path.exists(os.path.join(CFG["barrier"], "done.0")) \
+                and time.monotonic() < t_end:
+            time.sleep(0.002)
     _T_ARMED = True
     try:
         if mode == "digest":
